@@ -126,6 +126,14 @@ def module_globals_state():
         if mod is None or not (mn == 'hl7apy' or mn.startswith('hl7apy.')):
             continue
         for k, v in sorted(vars(mod).items()):
+            if isinstance(v, type) and getattr(v, '__module__', '').startswith('hl7apy'):
+                # data kept on a class (scratch attributes, memos set through self.__class__) is shared state as well
+                for k2, v2 in sorted(vars(v).items()):
+                    if k2.startswith('__') or callable(v2) or isinstance(v2, (property, staticmethod, classmethod, types.FunctionType, types.MemberDescriptorType,
+                                                                               types.GetSetDescriptorType)):
+                        continue
+                    st['%s.%s.%s' % (mn, k, k2)] = repr(v2)[:200] if isinstance(v2, (str, int, float, bool, type(None), bytes)) else (id(v2), type(v2).__name__)
+                continue
             if k.startswith('__') or isinstance(v, (types.ModuleType, type, types.FunctionType, types.BuiltinFunctionType)) or callable(v):
                 continue
             key = '%s.%s' % (mn, k)
@@ -144,7 +152,7 @@ def module_globals_state():
 
 
 def run(tier, seed):
-    import hl7apy
+    import hl7apy, sys
     chk = vlib.Check('C19', tier, seed)
     rng = chk.rng
     chk.proof(MODULES, THEOREMS)
@@ -166,6 +174,8 @@ def run(tier, seed):
             # a memo that is rewritten and happens to end where it started is only visible call by call
             g1 = module_globals_state()
             stepwise += ['global %s (after call %d: %s)' % (k, i, str(c)[:80]) for k in g0 if k in g1 and g0[k] != g1[k] and not k.endswith('.BASE_DATATYPES')]
+            stepwise += ['new class attribute %s (after call %d: %s)' % (k, i, str(c)[:80]) for k in g1 if k not in g0 and k.count('.') >= 2 and
+                         '.'.join(k.split('.')[:-2]) in sys.modules and any(kk.startswith('.'.join(k.split('.')[:-1]) + '.') for kk in g0)]
             g0 = g1
     after = shallow_state()
     gafter = module_globals_state()
